@@ -1,7 +1,8 @@
 From Coq Require Extraction ExtrOcamlBasic.
-From Rpgp Require Import Base.Octets Base.Res Aead.Seipd2 Aead.Seipd2Machine Sym.Cfb Sym.Seipd1Machine.
+From Rpgp Require Import Base.Octets Base.Res Aead.Seipd2 Aead.Seipd2Machine Aead.Gnupg Sym.Cfb Sym.Seipd1Machine.
 Extraction Language OCaml.
 Separate Extraction Byte.to_N Byte.of_N
   Seipd2.seipd2_enc Seipd2.seipd2_dec Seipd2.seipd2_stream_dec Seipd2.derive Seipd2.info_of Seipd2.chunk_len
   Cfb.cfb_enc Cfb.cfb_dec Cfb.seipd1_enc Cfb.seipd1_dec Cfb.seipd1_checkfirst Cfb.seipd1_streaming
-  Seipd1Machine.run_machine Seipd2Machine.a_run.
+  Seipd1Machine.run_machine Seipd2Machine.a_run
+  Gnupg.gnupg_enc Gnupg.gnupg_stream_dec Gnupg.gnupg_run.
